@@ -93,7 +93,15 @@ class C20(Prop):
             lam = buf
         a_in, l_in = arr, lam
         base_in = "E" if case["flux"] else "I"
-        if case["units"] == "base":
+        top = case["units"] != "none" and (len(str(case["arr"])) + int(bool(case["flux"]))) % 3 == 0
+        if top:
+            # quantities built with pint's top-level classes (what unpickling and third-party code produce): same registry, same numbers
+            import pint as _pint
+            if case["units"] == "base":
+                a_in = _pint.Quantity(arr, base_in); l_in = _pint.Quantity(lam, "nm")
+            else:
+                a_in = _pint.Quantity(arr * 1000.0, "m" + base_in); l_in = (lam / 1000.0) * _pint.Unit("um")
+        elif case["units"] == "base":
             a_in = arr * ureg(base_in); l_in = lam * ureg("nm")
         elif case["units"] == "scaled":
             # same physical quantity expressed in milli-units / micrometres
